@@ -562,4 +562,73 @@ theorem server_verifySortition_lenient_counterexample : ¬ server_verifySortitio
   revert this
   decide
 
+/-! ## 8. tests: the hypotheses of the theorems above are satisfiable (labelled tests, `decide` on literals) -/
+
+set_option exponentiation.threshold 2048
+
+/-- test table: the CDF of binomial(3, 1/2) as float64 bit patterns (0.125, 0.5, 0.875, 1.0), for every `P` -/
+def cdf3 : F64 → Nat → F64 := fun _ k =>
+  if k = 0 then 0x3FC0000000000000 else if k = 1 then 0x3FE0000000000000 else if k = 2 then 0x3FEC000000000000 else f64One
+
+def half : F64 := 0x3FE0000000000000
+
+example : targetOf (2 ^ 255) = half := by decide
+example : chooseBranch (2 ^ 255) 3 half = .scan := by decide
+example : choose cdf3 (2 ^ 255) 3 half = .ok 1 := by decide
+
+/-- test: the hypotheses of `choose_is_quantile` are satisfiable (forward-scan branch, 0 < j < stake) -/
+example : CdfOk cdf3 (2 ^ 255) 3 half where
+  mono := by
+    intro a b hab hb
+    have : a = 0 ∨ a = 1 ∨ a = 2 ∨ a = 3 := by omega
+    have : b = 0 ∨ b = 1 ∨ b = 2 ∨ b = 3 := by omega
+    rcases ‹a = 0 ∨ a = 1 ∨ a = 2 ∨ a = 3› with rfl | rfl | rfl | rfl <;>
+      rcases ‹b = 0 ∨ b = 1 ∨ b = 2 ∨ b = 3› with rfl | rfl | rfl | rfl <;> first | omega | decide
+  top := by decide
+  mirror := by
+    intro h
+    exact absurd h (by decide)
+  topEnd := by
+    intro h
+    exact absurd h (by decide)
+
+/-- test: mirrored branch: hash = 2^256 - 2^248 (target 0.99609375 > 0.99) wins all three seats -/
+example : chooseBranch (2 ^ 256 - 2 ^ 248) 3 half = .mirror := by decide
+example : choose cdf3 (2 ^ 256 - 2 ^ 248) 3 half = .ok 3 := by decide
+example : CdfOk cdf3 (2 ^ 256 - 2 ^ 248) 3 half where
+  mono := by
+    intro a b hab hb
+    have : a = 0 ∨ a = 1 ∨ a = 2 ∨ a = 3 := by omega
+    have : b = 0 ∨ b = 1 ∨ b = 2 ∨ b = 3 := by omega
+    rcases ‹a = 0 ∨ a = 1 ∨ a = 2 ∨ a = 3› with rfl | rfl | rfl | rfl <;>
+      rcases ‹b = 0 ∨ b = 1 ∨ b = 2 ∨ b = 3› with rfl | rfl | rfl | rfl <;> first | omega | decide
+  top := by decide
+  mirror := by
+    intro _ k hk
+    have : k = 0 ∨ k = 1 ∨ k = 2 := by omega
+    rcases this with rfl | rfl | rfl <;> decide
+  topEnd := by
+    intro h
+    exact absurd h (by decide)
+
+/-- a toy VRF (test instance): the proof is the pair (key, message); unique, binding and complete -/
+def toyVrf : Vrf Nat Nat (Nat × List UInt8) Unit :=
+  { pkOf := id
+    evaluate := fun sk m _ => (zero32, (sk, m))
+    proofToHash := fun pk m π => if π = (pk, m) then some zero32 else none }
+
+example : VrfUnique toyVrf := by
+  intro pk m π π' h h' e e'
+  simp only [toyVrf] at e e'
+  split at e <;> split at e' <;> simp_all
+
+example : VrfBinding toyVrf := by
+  intro pk pk' m m' π h h' e e'
+  simp only [toyVrf] at e e'
+  split at e <;> split at e' <;> simp_all
+
+example : VrfComplete toyVrf := by
+  intro sk m ρ
+  simp [toyVrf]
+
 end YouVerif.C04.Props
